@@ -116,7 +116,7 @@ class C07(Prop):
         "events have no empty tag (admission gate, C11); otherwise Match panics inside Publish",
         "a disconnect is modelled only for an idle connection (no operation of its own in progress)",
         "Go's writer preference of RWMutex is not modelled (it only removes schedules)",
-        "a reply or flush that does not arrive within 10 s is recorded as missing",
+        "a reply that does not arrive within 10 s, or a flush that does not get through within 40 rounds and 3 s, is recorded as missing",
     ]
 
     def to_coq(self, I, c):
